@@ -259,6 +259,12 @@ namespace occa {
             state.pushOperator(&opToken);
           }
           else if (opToken.opType() & operatorType::pairEnd) {
+            // A closing token without an opening one has no pair state to pop
+            if (state.scopedStates.size() < 2) {
+              state.hasError = true;
+              opToken.printError("Could not find an opening pair");
+              return;
+            }
             state.pushOperator(&opToken);
             state.popPair();
             closePair();
